@@ -78,6 +78,15 @@ def run(chk):
                     why = "decode(encode(record)) differs from the record"
             if why is None and listing_of_record(rec) != independent_listing(fcp):
                 why = "the record does not list the schema's declarations with the declared values"
+            if why is None and dec is not None:
+                # lossless: what comes back from the bytes still lists the declared values exactly (Python equality, not the
+                # reflection schema's own field types - a narrower field type there would otherwise hide its own rounding)
+                try:
+                    same = listing_of_record(dec) == independent_listing(fcp)
+                except Exception:
+                    same = False
+                if not same and not any(not (-2 ** 31 <= x.value < 2 ** 31) for e in fcp.enums for x in e.enumeration):
+                    why = "the decoded record does not list the schema's declarations with the declared values (the encoding is lossy)"
         big_enum = any(not (-2 ** 31 <= x.value < 2 ** 31) for e in fcp.enums for x in e.enumeration)
         if big_enum and chk.find_known("enum-value-i32"):
             # known finding: the only admissible failure is a record that differs exactly at the wrapped enumerator values
